@@ -256,16 +256,29 @@ func runRefMem(c RefCase, a *run.Acc) {
 }
 
 func runRefConc(c RefCase, a *run.Acc) {
-	batch := enum.TextMenu()[2]
-	// expected answers of the small read
-	read := func(seg segment.Segment) string {
+	batch := spec.Batch{Docs: append(append([]spec.Doc{}, enum.TextMenu()[2].Docs...), enum.SynDoc(2, 4))}
+	batch.Docs[2].ID = "syn"
+	// expected answers of the small read: a stored-field lookup and a lookup in the
+	// lazily loaded thesaurus cache (which Close has to clear)
+	read := func(seg segment.Segment, withThesaurus bool) string {
 		id, err := seg.DocID(1)
 		if err != nil {
 			return "error: " + err.Error()
 		}
-		return fmt.Sprintf("%s/%d", id, seg.Count())
+		if !withThesaurus {
+			return fmt.Sprintf("%s/%d/true", id, seg.Count())
+		}
+		th, err := seg.(segment.ThesaurusSegment).Thesaurus("s1")
+		if err != nil {
+			return "error: " + err.Error()
+		}
+		has, err := th.Contains([]byte("b"))
+		if err != nil {
+			return "error: " + err.Error()
+		}
+		return fmt.Sprintf("%s/%d/%v", id, seg.Count(), has)
 	}
-	want := "p1/2"
+	want := "p1/3/true"
 	var lastPath string
 	body := func(fails *[]string, mu *sync.Mutex) {
 		mem, _, err := zx.Build(batch, 1026)
@@ -294,14 +307,14 @@ func runRefConc(c RefCase, a *run.Acc) {
 		for i := 0; i < c.Holders; i++ {
 			i := i
 			bodies = append(bodies, func() {
-				if got := read(seg); got != want {
+				if got := read(seg, true); got != want {
 					failf(fails, mu, "holder %d read %q while holding a reference, want %q", i, got, want)
 				}
 				seg.AddRef()
 				if err := seg.DecRef(); err != nil {
 					failf(fails, mu, "holder %d: DecRef returned %v", i, err)
 				}
-				if got := read(seg); got != want {
+				if got := read(seg, false); got != want {
 					failf(fails, mu, "holder %d read %q while holding a reference, want %q", i, got, want)
 				}
 				if err := seg.DecRef(); err != nil {
@@ -310,7 +323,7 @@ func runRefConc(c RefCase, a *run.Acc) {
 			})
 		}
 		bodies = append(bodies, func() {
-			if got := read(seg); got != want {
+			if got := read(seg, false); got != want {
 				failf(fails, mu, "owner read %q before Close, want %q", got, want)
 			}
 			if err := seg.Close(); err != nil {
@@ -350,7 +363,7 @@ func init() {
 	run.Register(&run.Def{
 		ID:          "C20",
 		Level:       "model_checking",
-		Rule:        "(a) sequential explicit-state exploration on a real opened segment: EVERY sequence of AddRef / DecRef / Close events of length <= 9 (quick) / 11 (thorough) that keeps the count in [1,4] until its last event; state key = (reference count read through the verif hook, file mapped according to /proc/self/maps, descriptor open according to /proc/self/fd); the segment has text fields with doc values and stored values, two thesauri and (vectors tag) a vector field, so every cache is in play; in every state with a positive count the complete dump, every thesaurus lookup and (vectors tag) exact vector searches must equal the reference, the mapping and descriptor must be present; after the last event both must be gone and every release call must have returned nil; a premature unmap is a SIGSEGV of the worker and is attributed to the history. (b) closing an in-memory segment (after using its caches) returns nil, leaves a segment built before and one built after undisturbed and, under the vectors tag, leaves no native index alive. (c) stateless model checking under the controlled scheduler: 1 holder (all interleavings), 2 holders (preemption bound 3 quick / 5 thorough) and 3 holders (preemption bound 2 quick / 3 thorough), each handed a reference, doing read; AddRef; DecRef; read; DecRef, against the owner's read; Close, interleaved at the segment's lock points; every read while holding a reference must give the sequential answer, every release returns nil, and at the end the count is 0 and mapping and descriptor are gone; plus a free-running -race pass of the same bodies.",
+		Rule:        "(a) sequential explicit-state exploration on a real opened segment: EVERY sequence of AddRef / DecRef / Close events of length <= 9 (quick) / 11 (thorough) that keeps the count in [1,4] until its last event; state key = (reference count read through the verif hook, file mapped according to /proc/self/maps, descriptor open according to /proc/self/fd); the segment has text fields with doc values and stored values, two thesauri and (vectors tag) a vector field, so every cache is in play; in every state with a positive count the complete dump, every thesaurus lookup and (vectors tag) exact vector searches must equal the reference, the mapping and descriptor must be present; after the last event both must be gone and every release call must have returned nil; a premature unmap is a SIGSEGV of the worker and is attributed to the history. (b) closing an in-memory segment (after using its caches) returns nil, leaves a segment built before and one built after undisturbed and, under the vectors tag, leaves no native index alive. (c) stateless model checking under the controlled scheduler: 1 holder (all interleavings), 2 holders (preemption bound 3 quick / 5 thorough) and 3 holders (preemption bound 2 quick / 3 thorough), each handed a reference, doing read; AddRef; DecRef; read; DecRef (a read = a stored-field lookup; each holder's first read also looks a term up in the lazily loaded thesaurus cache, which the final release has to clear), against the owner's read; Close, interleaved at the segment's lock points; every read while holding a reference must give the sequential answer, every release returns nil, and at the end the count is 0 and mapping and descriptor are gone; plus a free-running -race pass of the same bodies.",
 		Assumptions: []string{"a holder only takes a new reference while it already holds one (references are handed over by an owner)", "reads of a closed in-memory segment are not part of the property and are not issued"},
 		Bounds:      map[string]string{"quick": "sequences of length <= 9; 1 holder unbounded, 2 holders bound 3, 3 holders bound 2; race pass", "thorough": "sequences of length <= 11; 1 holder unbounded, 2 holders bound 5, 3 holders bound 3; race pass"},
 		Flavours:    func(string) []string { return []string{"plain", "vec", "inst", "race"} },
